@@ -560,7 +560,7 @@ func runProp(ctx *Ctx, prop string) *Result {
 	for _, s := range streams {
 		total += s.weight
 	}
-	n := ctx.N(700, 14000)
+	n := ctx.N(600, 14000)
 	deadline := time.Now().Add(time.Duration(ctx.N(55, 960)) * time.Second)
 	for i := 0; i < n; i++ {
 		if len(res.Disagreements) >= 20 {
